@@ -66,8 +66,9 @@ def s_rates():
 def s_explog():
     return st.fixed_dictionaries({"kind": st.just("explog"), "s": gens.fl(-20, 20), "vdir": gens.direction3(),
                                   "vnorm": st.one_of(gens.logmag(-6, 0.49), gens.fl(1e-6, math.pi - 1e-6),
-                                                     # towards the open end of (0, pi): pi - 10^-k and the double just below pi
-                                                     st.integers(1, 15).map(lambda k: math.pi - 10.0 ** (-k)), st.just(math.nextafter(math.pi, 0.0))),
+                                                     # towards the open end of (0, pi): pi - 10^-k (k <= 13: the norm of the built vector is
+                                                     # itself rounded, so the last ulps before pi may already lie beyond it)
+                                                     st.integers(1, 13).map(lambda k: math.pi - 10.0 ** (-k))),
                                   "logmag": gens.logmag(-3, 3), "ratio": gens.logmag(-6, 0), "sign": st.sampled_from([-1.0, 1.0])})
 
 
